@@ -433,7 +433,15 @@ def r18_4(ctx, m):
         ctx.check(ok, "R18.4", dec.where(c), "the contig-name condition compares the SN tag values of the scaffold nodes (the whole tag or its value element), not the type letter, which is the same for every node", key_of(dec, f"sn-condition:{t[:120]}"), condition=t[:200])
     deg = [c for c in conds if "neighbors()" in ctext[id(c)]]
     ctx.check(len(deg) >= 2, "R18.4", dec.where(), "the degree census (two ends of degree 1, all others of degree 2) leads to the skip return", key_of(dec, f"degree-conditions:{len(deg)}"))
-    asc = [c for c in conds if "tags['SO']" in ctext[id(c)] and isinstance(c, ast.If)]
+    def _pair_sources(c):
+        """for a test on the loop variables of `for a, b in zip(X, X[1:])`: the closure text of X"""
+        out = ""
+        for lp in walk_own(dec.node):
+            if isinstance(lp, ast.For) and any(x is c for x in ast.walk(lp)) and isinstance(lp.iter, ast.Call) and norm(lp.iter.func) == "zip":
+                out += " ; ".join(closure(lp.iter))
+        return out
+
+    asc = [c for c in conds if isinstance(c, ast.If) and ("tags['SO']" in ctext[id(c)] or "tags['SO']" in _pair_sources(c))]
     verdicts = []
     for c in asc:
         tt = norm(c.test).replace(" ", "")
@@ -443,9 +451,19 @@ def r18_4(ctx, m):
         weak = _re.fullmatch(r"not(\w+)\[(\w+)\]<=\1\[\2\+1\]|(\w+)\[(\w+)\]>\3\[\4\+1\]|(\w+)\[(\w+)\+1\]<\5\[\6\]", tt)
         z_strict = _re.fullmatch(r"notall\(\(?(\w+)<(\w+)for\1,\2inzip\((\w+),\3\[1:\]\)\)?\)|any\(\(?(\w+)>=(\w+)for\4,\5inzip\((\w+),\6\[1:\]\)\)?\)|notall\(\(?(\w+)>(\w+)for\8,\7inzip\((\w+),\9\[1:\]\)\)?\)", tt)
         z_weak = _re.fullmatch(r"notall\(\(?(\w+)<=(\w+)for\1,\2inzip\((\w+),\3\[1:\]\)\)?\)|any\(\(?(\w+)>(\w+)for\4,\5inzip\((\w+),\6\[1:\]\)\)?\)", tt)
-        if strict or z_strict:
+        # pairwise loop: for a, b in zip(X, X[1:]): if not a < b: <skip>
+        pair = None
+        for lp in walk_own(dec.node):
+            if isinstance(lp, ast.For) and any(x is c for x in ast.walk(lp)) and isinstance(lp.iter, ast.Call) and norm(lp.iter.func) == "zip" and len(lp.iter.args) == 2 and norm(lp.iter.args[1]) == f"{norm(lp.iter.args[0])}[1:]" and isinstance(lp.target, ast.Tuple) and len(lp.target.elts) == 2:
+                pair = [norm(e) for e in lp.target.elts]
+        p_strict = p_weak = None
+        if pair:
+            a_, b_ = pair
+            p_strict = tt in (f"not{a_}<{b_}", f"{a_}>={b_}", f"{b_}<={a_}")
+            p_weak = tt in (f"not{a_}<={b_}", f"{a_}>{b_}", f"{b_}<{a_}")
+        if strict or z_strict or p_strict:
             verdicts.append(True)
-        elif weak or z_weak:
+        elif weak or z_weak or p_weak:
             verdicts.append(False)
     if not verdicts:
         if asc:
